@@ -620,7 +620,7 @@ static size_t safec_ftoa_long(out_fct_type out, const char *funcname,
                               long double value, unsigned int prec,
                               unsigned int width, unsigned int flags,
                               const char *format) {
-    static char buf[64];
+    char buf[64];
     char *p = (char *)buf;
     int rc = 0;
 
@@ -680,7 +680,7 @@ static inline size_t safec_atoa(out_fct_type out, const char *funcname,
                                 double value, unsigned int prec,
                                 unsigned int width, unsigned int flags,
                                 const char *format) {
-    static char buf[64];
+    char buf[64];
     char *p = (char *)buf;
     int rc = 0;
 
